@@ -6,7 +6,7 @@ import numpy as np
 from .. import core, gen
 
 ID = 'C16'
-FOUNDATIONS = ['harness.foundation.concurrent', 'harness.foundation.soak']   # the property's own functions under concurrent calls (validation; proofs in C12)
+FOUNDATIONS = ['harness.foundation.pybody']   # bernsenRule / otsuImg are tied to the current bodies of gbernsen / otsu
 _META = core.VERIF / 'harness' / 'props' / 'meta' / 'C16.json'
 LEVEL = json.loads(_META.read_text())['category'] if _META.exists() else 'other'
 RULE = ('corpus; unsigned images (uint8/16/32/64, 1-3 D, 1..4096 pixels) with 1..65536 grey levels: constant, two-level, '
